@@ -316,6 +316,21 @@ class Facts:
             fn = Fn(self, fj)
             self.fns[fn.defp] = fn
         self.adts = self.j['adts']
+        # wrapper structs that do not exist on the reference tree and have exactly one field (a newtype put around an existing
+        # value, e.g. a map wrapped in a struct with forwarding methods) are seen through by the interpreter: the wrapped value keeps
+        # the place it has on the reference tree. (Their forwarding methods are new functions, opened up by the inline mode.)
+        self.transparent = set()
+        try:
+            import names
+            if os.path.exists(names.BASELINE):
+                base = _baseline()
+                known = set(base.get(self.crate, {}).get('adts', {}))
+                if known:
+                    for path_, a in self.adts.items():
+                        if a.get('local') and a.get('crate') == self.crate and a['kind'] == 'struct' and path_ not in known and len(a['variants']) == 1 and len(a['variants'][0]['fields']) == 1:
+                            self.transparent.add(path_)
+        except Exception:
+            self.transparent = set()
         self.impls = self.j['impls']
         self.statics = self.j['statics']
         self.unsafe_code_lint = self.j['unsafe_code_lint']
@@ -510,6 +525,15 @@ def tree_hash():
 
 _loaded = {}
 _renames = {}
+_base_cache = []
+
+
+def _baseline():
+    if not _base_cache:
+        import names
+        with open(names.BASELINE) as f:
+            _base_cache.append(json.load(f))
+    return _base_cache[0]
 
 
 def raw_path(config, crate='unimock'):
